@@ -444,7 +444,8 @@ var reproducersComp = []struct{ sig, src string }{
 	// index 0 (and the slice bound 1) of an array of length zero; a test of the
 	// checker expects `v := [...]int{}; v[0] = 5` to compile
 	{"const-index-eq-len-accepted", "package main\n\nfunc main() {\n\tvar a [0]int\n\t_ = a[0]\n}\n"},
-	// Go 1.20 conversion from slice to array (the conversion to a pointer to array is accepted)
+	// Go 1.20 conversion from slice to array: was the finding slice-to-array-conversion-rejected, repaired by the
+	// fix "the conversion of a slice to an array was rejected by Build": a regression now
 	{"slice-to-array-conversion-rejected", "package main\n\nfunc main() {\n\tvar s []int\n\t_ = [3]int(s)\n}\n"},
 	// a range clause with = can only assign to identifiers
 	{"range-assign-non-identifier-rejected", "package main\n\nfunc main() {\n\tvar a [3]int\n\ts := []int{1}\n\tfor a[0] = range s {\n\t}\n}\n"},
